@@ -156,7 +156,8 @@ def gen_forms(args):
                         late = prev[ip[prev] > 1.5 * np.pi]
                         stop = np.where(cv == c)[0][-1] + 1
                         want.append(float(np.sum(x[late[0]:stop])) if len(late) else np.nan)
-                    ok = (not isinstance(ref, str)) and np.allclose(np.asarray(ref, float), np.array(want), rtol=1e-12, atol=1e-12, equal_nan=True)
+                    ok = (not isinstance(ref, str)) and np.shape(ref) == np.shape(want) and \
+                        np.allclose(np.asarray(ref, float), np.array(want), rtol=1e-12, atol=1e-12, equal_nan=True)
                     recs.append({'kind': 'forms', 'fn': 'get_cycle_stat', 'mode': mode, 'form': 'value', 'ref_raised': int(isinstance(ref, str)),
                                  'same': int(ok), 'seed': seed, 'ncycles': int(C.ncycles)})
                 forms = {'iterator_default': C.iterate(), 'iterator_same_mode': C.iterate(mode=mode), 'iterator_other_mode': C.iterate(mode=other)}
@@ -189,7 +190,11 @@ def gen_bin(args):
         if isinstance(o, str):
             recs.append({'kind': 'bin', 'phi2': list(phi2), 'x': list(x), 'e2': list(e2), 'out60': [-99], 'err': o})
             continue
-        avg = np.asarray(o[0], float).reshape(len(e2) - 1, -1)[:, 0]
+        avg = np.asarray(o[0], float)
+        if avg.ndim == 0 or avg.shape[0] != len(e2) - 1:          # not one value per bin: recorded as such (the clause on the length fails)
+            recs.append({'kind': 'bin', 'phi2': list(phi2), 'x': list(x), 'e2': list(e2), 'out60': [-97] * (avg.shape[0] if avg.ndim else 0), 'explicit': int(explicit)})
+            continue
+        avg = avg.reshape(len(e2) - 1, -1)[:, 0]
         o60, ok = ints(avg, 60.0)
         recs.append({'kind': 'bin', 'phi2': list(phi2), 'x': list(x), 'e2': list(e2), 'out60': o60 if ok else [-98], 'explicit': int(explicit)})
     return recs
